@@ -108,7 +108,7 @@ Section ProtocolProofs.
   Record inv (s : sys) : Prop := mkInv {
     i_nocrash : crashed s = false;
     i_res : forall np, Z.of_nat (nlive np (tks s)) <= reserved (nps s) np;
-    i_tracked : forall c p, In (c, p) (api s) -> known (nps s) p c = true \/ In c (created p (tks s));
+    i_tracked : synced s = true -> forall c p, In (c, p) (api s) -> known (nps s) p c = true \/ In c (created p (tks s));
     i_nodup : NoDup (map fst (api s));
     i_fresh : forall c p, In (c, p) (api s) -> (c < fresh s)%nat;
     i_nz : forall t, In t (tks s) -> tpool t <> 0%nat;
@@ -119,10 +119,10 @@ Section ProtocolProofs.
   Proof. reflexivity. Qed.
 
   (* NodeClaims in the API plus not yet attempted creations never exceed tracked + reserved *)
-  Lemma count_bound s np : inv s ->
+  Lemma count_bound s np : inv s -> synced s = true ->
     api_count s np + granted_count s np <= cnt (nps s) np + reserved (nps s) np.
   Proof.
-    intros I. rewrite granted_count_eq. unfold api_count.
+    intros I Hsy. rewrite granted_count_eq. unfold api_count.
     match goal with |- context [filter ?f (api s)] => set (sel := filter f (api s)) end.
     set (names := map fst sel).
     assert (Hnd : NoDup names) by (apply NoDup_map_filter, (i_nodup s I)).
@@ -137,7 +137,7 @@ Section ProtocolProofs.
       destruct Hc as [Hin Hnk]. unfold names in Hin. apply in_map_iff in Hin.
       destruct Hin as [[c' p] [Hfst Hin]]. simpl in Hfst; subst c'. unfold sel in Hin.
       apply filter_In in Hin. destruct Hin as [Hin Hp]. simpl in Hp. apply Nat.eqb_eq in Hp; subst p.
-      destruct (i_tracked s I c np Hin) as [Hk|Hc]; [|exact Hc].
+      destruct (i_tracked s I Hsy c np Hin) as [Hk|Hc]; [|exact Hc].
       rewrite Hk in Hnk. discriminate. }
     pose proof (created_granted_le_live np (tks s)) as Hcg.
     pose proof (i_res s I np) as Hres.
@@ -154,7 +154,7 @@ Section ProtocolProofs.
     intros I Hr Hk. constructor; simpl.
     - apply (i_nocrash s I).
     - intros np. rewrite Hr. apply (i_res s I).
-    - intros c p Hin. destruct (i_tracked s I c p Hin) as [H|H]; [left; now apply Hk | right; exact H].
+    - intros Hsy c p Hin. destruct (i_tracked s I Hsy c p Hin) as [H|H]; [left; now apply Hk | right; exact H].
     - apply (i_nodup s I).
     - apply (i_fresh s I).
     - apply (i_nz s I).
@@ -171,9 +171,9 @@ Section ProtocolProofs.
 
   (* ---------------------------------------------------------------- ReserveNodeCount at the start of a reconcile *)
 
-  Lemma inv_begin_reserve drift s np w : inv s -> np <> 0%nat -> 0 <= w -> inv (begin_reserve L drift s np w).
+  Lemma inv_begin_reserve drift s np w : inv s -> synced s = true -> np <> 0%nat -> 0 <= w -> inv (begin_reserve L drift s np w).
   Proof.
-    intros I Hnz Hw. unfold begin_reserve.
+    intros I Hsy Hnz Hw. unfold begin_reserve.
     destruct (reserve_spec (nps s) np (L np) w) as [n [g [Hres [Hc [Hk [_ [Hr [Hro Hg]]]]]]]].
     rewrite Hres.
     assert (Hcnt : cnt n np = cnt (nps s) np) by (unfold cnt; now rewrite Hc).
@@ -190,12 +190,12 @@ Section ProtocolProofs.
       destruct (Nat.eqb np q) eqn:E.
       + apply Nat.eqb_eq in E; subst q. rewrite Hr. simpl. rewrite Nat2Z.inj_add, Nat2Z.inj_add, Z2Nat.id by lia. simpl. lia.
       + apply Nat.eqb_neq in E. rewrite Hro by congruence. simpl. lia.
-    - intros c p Hin. rewrite Hk, created_app2, created_repeat, app_nil_r. apply (i_tracked s I c p Hin).
+    - intros _ c p Hin. rewrite Hk, created_app2, created_repeat, app_nil_r. apply (i_tracked s I Hsy c p Hin).
     - apply (i_nodup s I).
     - apply (i_fresh s I).
     - intros t Hin. apply in_app_iff in Hin. destruct Hin as [Hin|Hin]; [apply (i_nz s I t Hin)|].
       apply repeat_spec in Hin. subst t. exact Hnz.
-    - intros q. pose proof (i_cap s I q) as Hcap. pose proof (count_bound s np I) as Hb.
+    - intros q. pose proof (i_cap s I q) as Hcap. pose proof (count_bound s np I Hsy) as Hb.
       rewrite granted_count_eq in *. unfold api_count in *. simpl.
       rewrite ngranted_app2, ngranted_repeat.
       destruct (Nat.eqb np q) eqn:E.
@@ -214,23 +214,50 @@ Section ProtocolProofs.
   Lemma in_tks_pool s i t0 : inv s -> nth_error (tks s) i = Some t0 -> tpool t0 <> 0%nat.
   Proof. intros I H. apply (i_nz s I). eapply nth_error_In; eauto. Qed.
 
+  Lemma inv_gate s s1 : inv s -> gate s = Some s1 ->
+    inv s1 /\ synced s1 = true /\ nps s1 = nps s.
+  Proof.
+    intros I Hg. unfold gate in Hg. destruct (synced s) eqn:Esy.
+    - inversion Hg; subst s1. auto.
+    - destruct (api_tracked s) eqn:Et; [|discriminate]. inversion Hg; subst s1; clear Hg.
+      split; [|split; reflexivity]. constructor; simpl.
+      + apply (i_nocrash s I).
+      + apply (i_res s I).
+      + intros _ c p Hin. left. unfold api_tracked in Et. rewrite forallb_forall in Et. apply (Et (c, p) Hin).
+      + apply (i_nodup s I).
+      + apply (i_fresh s I).
+      + apply (i_nz s I).
+      + apply (i_cap s I).
+  Qed.
+
+  Lemma inv_smark s k np nc : inv s -> inv (smark s k np nc).
+  Proof.
+    intros I. unfold smark. destruct (mark_ok k (nps s) np nc) as [n Hn]. rewrite Hn.
+    destruct (mark_effect _ _ _ _ _ _ Hn) as [Hr [Hk _]].
+    apply inv_with_nps; [exact I | exact Hr | intros; now apply Hk].
+  Qed.
+
   Lemma inv_step : forall s o, inv s -> inv (sstep L s o).
   Proof.
-    intros s o I. destruct o as [np r|np r budget ncands|i ok|i|i|nc d|nc|nc|k np nc]; cbn [sstep].
+    intros s o I. destruct o as [np r|np r budget ncands|i ok|i|i|nc d|nc|nc|k np nc|np r victims|]; cbn [sstep].
     - (* ProvBegin *)
       destruct (counts (nps s) np) as [[a d] p] eqn:Ec.
       destruct (Nat.eqb np 0) eqn:Enz; [exact I|]. apply Nat.eqb_neq in Enz.
-      destruct (r <=? a + p) eqn:E; [exact I|]. apply Z.leb_gt in E.
-      apply inv_begin_reserve; [exact I | exact Enz |].
+      destruct (gate s) as [s1|] eqn:Eg; [|exact I].
+      destruct (inv_gate s s1 I Eg) as [I1 [Hsy1 Hn1]].
+      destruct (r <=? a + p) eqn:E; [exact I1|]. apply Z.leb_gt in E.
+      apply inv_begin_reserve; [exact I1 | exact Hsy1 | exact Enz |].
       assert (0 <= p).
       { unfold counts in Ec. destruct (pool (nps s) np); inversion Ec; lia. }
       lia.
     - (* DriftBegin *)
       destruct (counts (nps s) np) as [[a d] p] eqn:Ec.
       destruct (Nat.eqb np 0) eqn:Enz; simpl; [exact I|]. apply Nat.eqb_neq in Enz.
-      destruct (Nat.eqb budget 0 || Nat.eqb ncands 0); [exact I|].
-      destruct (r <? a + p); [exact I|].
-      apply inv_begin_reserve; [exact I | exact Enz | lia].
+      destruct (gate s) as [s1|] eqn:Eg; [|exact I].
+      destruct (inv_gate s s1 I Eg) as [I1 [Hsy1 Hn1]].
+      destruct (Nat.eqb budget 0 || Nat.eqb ncands 0); [exact I1|].
+      destruct (r <? a + p); [exact I1|].
+      apply inv_begin_reserve; [exact I1 | exact Hsy1 | exact Enz | lia].
     - (* TkCreate *)
       destruct (nth_error (tks s) i) as [[p [| |c|c|]]|] eqn:En; try exact I.
       pose proof (in_tks_pool s i _ I En) as Hpz. simpl in Hpz.
@@ -240,11 +267,11 @@ Section ProtocolProofs.
         * apply (i_nocrash s I).
         * intros q. rewrite Hb, nlive_app.
           pose proof (i_res s I q) as Hq. rewrite Ha, nlive_app in Hq. simpl in *. exact Hq.
-        * intros c q Hin. rewrite Hb, created_app.
+        * intros Hsy c q Hin. rewrite Hb, created_app.
           destruct Hin as [Heq|Hin].
           { inversion Heq; subst c q. right. rewrite !in_app_iff. right. left.
             unfold cname; simpl. rewrite Nat.eqb_refl. now left. }
-          { destruct (i_tracked s I c q Hin) as [H|H]; [now left|]. right.
+          { destruct (i_tracked s I Hsy c q Hin) as [H|H]; [now left|]. right.
             rewrite Ha, created_app in H. rewrite !in_app_iff in *. simpl in H. tauto. }
         * constructor; [|apply (i_nodup s I)]. intros Hin. apply in_map_iff in Hin.
           destruct Hin as [[c q] [Hf Hin]]. simpl in Hf; subst c.
@@ -263,8 +290,8 @@ Section ProtocolProofs.
         * apply (i_nocrash s I).
         * intros q. rewrite Hb, nlive_app.
           pose proof (i_res s I q) as Hq. rewrite Ha, nlive_app in Hq. simpl in *. exact Hq.
-        * intros c q Hin. rewrite Hb, created_app.
-          destruct (i_tracked s I c q Hin) as [H|H]; [now left|]. right.
+        * intros Hsy c q Hin. rewrite Hb, created_app.
+          destruct (i_tracked s I Hsy c q Hin) as [H|H]; [now left|]. right.
           rewrite Ha, created_app in H. rewrite !in_app_iff in *. simpl in *. tauto.
         * apply (i_nodup s I).
         * apply (i_fresh s I).
@@ -286,8 +313,8 @@ Section ProtocolProofs.
       + apply (i_nocrash s I).
       + intros q. rewrite Hb, nlive_app, Hr.
         pose proof (i_res s I q) as Hq. rewrite Ha, nlive_app in Hq. simpl in *. exact Hq.
-      + intros c' q Hin. rewrite Hb, created_app.
-        destruct (i_tracked s I c' q Hin) as [H|H]; [left; now apply Hk|].
+      + intros Hsy c' q Hin. rewrite Hb, created_app.
+        destruct (i_tracked s I Hsy c' q Hin) as [H|H]; [left; now apply Hk|].
         rewrite Ha, created_app in H. rewrite !in_app_iff in H. destruct H as [H|[H|H]].
         * right. rewrite !in_app_iff. now left.
         * unfold cname in H; simpl in H. destruct (Nat.eqb p q) eqn:E; [|contradiction].
@@ -321,8 +348,8 @@ Section ProtocolProofs.
           destruct (Nat.eqb p q) eqn:E; cbn [ind] in *.
           * apply Nat.eqb_eq in E; subst q. rewrite Hr. lia.
           * apply Nat.eqb_neq in E. rewrite Hro by congruence. lia.
-        + intros c q Hin. rewrite Hb, created_app, Hk.
-          destruct (i_tracked s I c q Hin) as [H|H]; [now left|]. right.
+        + intros Hsy c q Hin. rewrite Hb, created_app, Hk.
+          destruct (i_tracked s I Hsy c q Hin) as [H|H]; [now left|]. right.
           rewrite Ha, created_app, Hcn in H. rewrite !in_app_iff in *. simpl in *. tauto.
         + apply (i_nodup s I).
         + apply (i_fresh s I).
@@ -348,7 +375,7 @@ Section ProtocolProofs.
       constructor; simpl.
       + apply (i_nocrash s I).
       + apply (i_res s I).
-      + intros c p Hin. apply filter_In in Hin. apply (i_tracked s I). tauto.
+      + intros Hsy c p Hin. apply filter_In in Hin. apply (i_tracked s I Hsy). tauto.
       + apply NoDup_map_filter, (i_nodup s I).
       + intros c p Hin. apply filter_In in Hin. apply (i_fresh s I c p). tauto.
       + apply (i_nz s I).
@@ -361,9 +388,22 @@ Section ProtocolProofs.
       apply inv_with_nps; [exact I | exact Hr |].
       intros c p Hin Hkn. rewrite Hk; [exact Hkn|]. eapply pool_of_none; eauto.
     - (* SMark *)
-      destruct (mark_ok k (nps s) np nc) as [n Hn]. rewrite Hn.
-      destruct (mark_effect _ _ _ _ _ _ Hn) as [Hr [Hk _]].
-      apply inv_with_nps; [exact I | exact Hr | intros; now apply Hk].
+      apply inv_smark, I.
+    - (* DeprovMark *)
+      destruct (counts (nps s) np) as [[a d] p].
+      destruct (Nat.eqb np 0); [exact I|]. destruct (a - r <=? 0); [exact I|].
+      generalize (firstn (Z.to_nat (a - r)) victims). intros l. revert s I.
+      induction l as [|c t IH]; intros s I; simpl; [exact I | apply IH, inv_smark, I].
+    - (* Restart *)
+      constructor; simpl.
+      + apply (i_nocrash s I).
+      + intros q. unfold nlive, reserved; simpl. lia.
+      + intros Hsy. discriminate.
+      + apply (i_nodup s I).
+      + apply (i_fresh s I).
+      + intros t [].
+      + intros q. pose proof (i_cap s I q) as Hcap. rewrite granted_count_eq in *. unfold api_count in *. simpl.
+        change (ngranted q []) with 0%nat. lia.
   Qed.
 
   Lemma inv_init : inv (sys0).
@@ -371,7 +411,7 @@ Section ProtocolProofs.
     constructor; simpl.
     - reflexivity.
     - intros np. unfold nlive, reserved; simpl. lia.
-    - intros c p [].
+    - intros _ c p [].
     - constructor.
     - intros c p [].
     - intros t [].
